@@ -1106,22 +1106,11 @@ func ruleC9cfg(c *Ctx) {
 	want := map[string]string{"Format": "OutputFormat", "File": "SourceFileName", "Section": "CurrentSection", "Bits": "BitMode"}
 	settings := map[string]bool{"OutputFormat": true, "SourceFileName": true, "CurrentSection": true, "BitMode": true}
 	found := 0
-	ast.Inspect(fd.Body, func(x ast.Node) bool {
-		cc, ok := x.(*ast.CaseClause)
-		if !ok || len(cc.List) != 1 {
-			return true
-		}
-		sel, ok := cc.List[0].(*ast.SelectorExpr)
-		if !ok {
-			return true
-		}
-		k, ok := p.TypesInfo.Uses[sel.Sel].(*types.Const)
-		if !ok || k.Pkg() == nil || !strings.HasSuffix(k.Pkg().Path(), "internal/ast") {
-			return true
-		}
+	for _, cc := range directiveClauses(p, fd) {
+		sel := cc.Sel
 		field, isDirective := want[sel.Sel.Name]
-		if !isDirective {
-			return true
+		if !isDirective || len(cc.Names) != 1 {
+			continue
 		}
 		found++
 		written := map[string]bool{}
@@ -1158,8 +1147,7 @@ func ruleC9cfg(c *Ctx) {
 		key := "TraverseAST[" + sel.Sel.Name + "]"
 		c.check(written[field], "C9cfg", key+"|writes "+field, c.L.Pos(cc.Pos()), "the "+strings.ToUpper(sel.Sel.Name)+" clause does not set "+field)
 		c.check(len(others) == 0, "C9cfg", key+"|writes nothing else", c.L.Pos(cc.Pos()), "the "+strings.ToUpper(sel.Sel.Name)+" clause also writes "+strings.Join(others, ", ")+" (another directive's setting)")
-		return true
-	})
+	}
 	c.check(found == 4, "C9cfg", "directive clauses found", c.L.Pos(fd.Pos()), fmt.Sprintf("%d of 4 (BITS, FORMAT, FILE, SECTION)", found))
 }
 
@@ -1658,4 +1646,60 @@ func forCallsOf(p *packagesPackage, fd *ast.FuncDecl, visit func(*ast.CallExpr))
 			return true
 		})
 	}
+}
+
+// directiveClause: the statements executed for one (or several) of the internal/ast configuration
+// constants — a `case ast.K:` clause or the body of `if x == ast.K { … }` (an else-if chain).
+type directiveClause struct {
+	Sel   *ast.SelectorExpr // the first constant named
+	Names []string
+	Body  []ast.Stmt
+	pos   token.Pos
+	end   token.Pos
+}
+
+func (d directiveClause) Pos() token.Pos { return d.pos }
+func (d directiveClause) End() token.Pos { return d.end }
+
+func directiveClauses(p *packagesPackage, fd *ast.FuncDecl) []directiveClause {
+	isDirConst := func(e ast.Expr) *ast.SelectorExpr {
+		sel, ok := ast.Unparen(e).(*ast.SelectorExpr)
+		if !ok {
+			return nil
+		}
+		k, ok := p.TypesInfo.Uses[sel.Sel].(*types.Const)
+		if !ok || k.Pkg() == nil || !strings.HasSuffix(k.Pkg().Path(), "internal/ast") {
+			return nil
+		}
+		return sel
+	}
+	var out []directiveClause
+	ast.Inspect(fd.Body, func(x ast.Node) bool {
+		switch n := x.(type) {
+		case *ast.CaseClause:
+			var d directiveClause
+			for _, e := range n.List {
+				if sel := isDirConst(e); sel != nil {
+					if d.Sel == nil {
+						d.Sel = sel
+					}
+					d.Names = append(d.Names, sel.Sel.Name)
+				}
+			}
+			if d.Sel != nil {
+				d.Body, d.pos, d.end = n.Body, n.Pos(), n.End()
+				out = append(out, d)
+			}
+		case *ast.IfStmt:
+			if be, ok := ast.Unparen(n.Cond).(*ast.BinaryExpr); ok && be.Op == token.EQL {
+				for _, side := range []ast.Expr{be.X, be.Y} {
+					if sel := isDirConst(side); sel != nil {
+						out = append(out, directiveClause{Sel: sel, Names: []string{sel.Sel.Name}, Body: n.Body.List, pos: n.Body.Pos(), end: n.Body.End()})
+					}
+				}
+			}
+		}
+		return true
+	})
+	return out
 }
